@@ -46,6 +46,15 @@ theorem field_names_match :
     regNamesChunksOk registryChunks fieldNamesChunks = true :=
   ⟨api_names_ok, mt_names_ok, reg_names_ok⟩
 
+/-- **the Go struct has no field beside the layout**: for every registered struct type, the fields
+reflection finds in it (every one: exported or not, whatever its tag) are, name by name and in order, the
+fields of the layout `registry_matches_*` compares with the schema, and each struct tag is literally the
+text of the layout's flag (`tl:"flag:N"`, `tl:"flag:N,encoded_in_bitflags"`, none). So a Go field the
+schema does not define fails one of the two — also one tagged `tl:"-"`, which the encoder skips but the
+decoder reads whenever flags bit 0 is set. -/
+theorem struct_fields_are_layout :
+    regFieldsChunksOk registryChunks fieldNamesChunks allFieldsChunks = true := reg_fields_ok
+
 /-- the join tables used by the two theorems above are exactly what they stand for: every
 constructor is in the entry of its type, every registered constructor in the entries of its interfaces
 and enum type, and the entries hold nothing else (counts) -/
@@ -70,7 +79,10 @@ theorem nothing_extra_partial :
 /-- every generated client method sends a request of its function's constructor with argument i in
 the schema's parameter position i (same Go type), and returns the answer as the result kind the
 schema declares (bool / typed slice with the decoder hint / the pointer, enum or interface of the
-result type) -/
+result type); **its body is nothing but that** — `Mtv.Schema.generatedSkeletons`: request, error
+check, assertion, return of the asserted answer; no statement in front of the request, none between the
+answer and the return. The three hand-written wrapper methods: `wrapperMethodOk`
+(`handWrittenSkeletons`). -/
 theorem methods_match : methodChunks.all methodChunkOk = true := method_chunks_ok
 
 /-! ## non-vacuity: the predicates can fail -/
@@ -105,6 +117,33 @@ example :
       [⟨10, 0x46697273744d73674944⟩, ⟨10, 0x53657276657253616c74⟩, ⟨8, 0x556e697175654944⟩] = false ∧
     nameMatch ⟨10, 0x7270635f726573756c74⟩ ⟨6, 0x726573756c74⟩ ⟨3, 0x4f626a⟩ = true ∧
     nameMatch ⟨9, 0x7270635f6572726f72⟩ ⟨6, 0x726573756c74⟩ ⟨3, 0x4f626a⟩ = false := by
+  decide +kernel
+
+/-- body skeletons: the generator's body passes; the same body with a look-up in front of the request
+(an early return: the request may not be sent), with a statement between the assertion and the return,
+or with the error check missing does not; a hand-written skeleton is not accepted for a generated
+method -/
+example :
+    generatedSkeletons.contains [.call, .ifErr, .assert, .ifNotOkPanic, .ret] = true ∧
+    generatedSkeletons.contains [.other "if", .call, .ifErr, .assert, .ifNotOkPanic, .ret] = false ∧
+    generatedSkeletons.contains [.call, .ifErr, .assert, .ifNotOkPanic, .other "assign", .ret] = false ∧
+    generatedSkeletons.contains [.call, .assert, .ifNotOkPanic, .ret] = false ∧
+    generatedSkeletons.contains [.call, .ifErr, .retAssert] = false ∧
+    handWrittenSkeletons.contains [.call, .ifErr, .retAssert] = true := by
+  decide +kernel
+
+/-- struct tags: a flagged field is written `tl:"flag:2"` / `tl:"flag:0,encoded_in_bitflags"`, an
+unflagged one carries no tag; `tl:"-"` is the tag of neither. A struct with a field beside the layout
+fails `ctorFieldsOk` whatever that field's tag. -/
+example :
+    expectedTag (some ⟨2, false⟩) = ⟨11, 0x746c3a22666c61673a3222⟩ ∧
+    expectedTag (some ⟨0, true⟩) = ⟨31, 0x746c3a22666c61673a302c656e636f6465645f696e5f626974666c61677322⟩ ∧
+    expectedTag none ≠ ⟨6, 0x746c3a222d22⟩ ∧ expectedTag (some ⟨0, false⟩) ≠ ⟨6, 0x746c3a222d22⟩ ∧
+    ctorFieldsOk ⟨1, "T", .struct, none, [], [⟨"A", .int32, none⟩]⟩ [(1, 0x41)] [((1, 0x41), (0, 0))] = true ∧
+    ctorFieldsOk ⟨1, "T", .struct, none, [], [⟨"A", .int32, none⟩]⟩ [(1, 0x41)]
+      [((1, 0x41), (0, 0)), ((1, 0x42), (6, 0x746c3a222d22))] = false ∧
+    ctorFieldsOk ⟨1, "T", .struct, none, [], [⟨"A", .int32, none⟩]⟩ [(1, 0x41)]
+      [((1, 0x41), (0, 0)), ((1, 0x42), (0, 0))] = false := by
   decide +kernel
 
 end Mtv.C13
